@@ -142,3 +142,5 @@ func ints(xs []int) []int {
 	}
 	return xs
 }
+
+func jsonMarshal(v any) ([]byte, error) { return json.Marshal(v) }
